@@ -252,6 +252,22 @@ func (w *world) buildPlain(q Query) []built {
 		return false
 	}
 	switch kind {
+	case "tfcnt":
+		// filter through the list relation AND count all holders: the count is over every holder of the
+		// selected document, not only over those that satisfy the filter (or that led the join to it)
+		b := built{class: "count-of-holders-next-to-relation-filter", root: T, q: q, rel: k, hasWant: defined, invertible: true}
+		b.body = fmt.Sprintf(`{ %s(filter: {%s: {n: %s}}) { _docID n c: _count(%s: {}) } }`, T, bf, cond(q.Op, q.V), bf)
+		if defined {
+			b.want = []any{}
+			for _, t := range w.live(r.To) {
+				if anyHolder(t, q.Op, q.V, func(*mdoc) bool { return true }) {
+					row := docRow(t)
+					row["c"] = json.Number(strconv.Itoa(len(w.holders(k, t.id))))
+					b.want = append(b.want, row)
+				}
+			}
+		}
+		return []built{b}
 	case "hfid":
 		// the condition names nothing but the related document's id: it selects the holders whose link
 		// RESOLVES to that document (a link to a deleted or never created document has no related
